@@ -269,6 +269,8 @@ func checkC10(p *Program, r *Report) {
 	// ---- session typestate: no lookup reads a session field left over from a previous node
 	checkSessionTypestate(p, r, "C10.session-valid")
 
+	checkTailConsistent(p, r)
+
 	// ---- keys are bytes: no lookup or scan walks key material by runes
 	checkNoRuneWalk(p, r, "C10.bytes-not-runes", p.Method(p.Trie, "SlimTrie", "Get"), p.Method(p.Trie, "SlimTrie", "GetID"), p.Method(p.Trie, "SlimTrie", "RangeGet"),
 		p.Method(p.Trie, "SlimTrie", "Search"), p.Method(p.Trie, "SlimTrie", "ScanFrom"), p.Method(p.Trie, "SlimTrie", "ScanFromTo"), p.Method(p.Trie, "SlimTrie", "NewIter"), p.Trie.Func("NewSlimTrie"))
@@ -886,4 +888,94 @@ func checkLeafDecoder(p *Program, r *Report, rule string) {
 
 func init() {
 	controlFns["C10"] = func(fx *Program, r *Report) { controlNoRuneWalk(fx, r, "C10.bytes-not-runes") }
+}
+
+// checkTailConsistent (C10.tail-consistent): the exact-match descent and the
+// three-way descent agree on WHEN a leaf tail is compared. Each compares the
+// rest of the key with the stored tail under some nil tests of message
+// sections (today: LeafPrefixes != nil). If one of them adds a condition (only
+// on tries that also store inner prefixes, say), Get and Search/RangeGet
+// disagree on the exact-match answer in the modes in between.
+func checkTailConsistent(p *Program, r *Report) {
+	r.Rule("C10.tail-consistent", "E11", "both descents compare the leaf tail under the same section tests", 1)
+	getID := p.Method(p.Trie, "SlimTrie", "GetID")
+	search := p.Method(p.Trie, "SlimTrie", "Search")
+	if getID == nil || search == nil {
+		r.Unk("leaf tail tests", "", "GetID/Search not found")
+		return
+	}
+	// section tests on paths whose condition or result involves a bytes comparison with the stored tail
+	sectionTests := func(ps []fpath) (map[string]bool, int) {
+		out := map[string]bool{}
+		n := 0
+		for _, fp := range ps {
+			if fp.panics {
+				continue
+			}
+			uses := false
+			for _, c := range fp.pc {
+				if strings.Contains(c, "call:bytes.") && strings.Contains(c, "leafPrefix") {
+					uses = true
+				}
+			}
+			for _, res := range fp.results {
+				if s := res.String(); strings.Contains(s, "call:bytes.") && strings.Contains(s, "leafPrefix") {
+					uses = true
+				}
+			}
+			if !uses {
+				continue
+			}
+			n++
+			for _, c := range fp.pc {
+				if (strings.Contains(c, "Slim.LeafPrefixes") || strings.Contains(c, "Slim.InnerPrefixes")) && (strings.Contains(c, "!= nil") || strings.Contains(c, "(nil != ")) {
+					out[c] = true
+				}
+			}
+		}
+		return out, n
+	}
+	// exact-match side: the tail of GetID (or GetID itself when the loop lives in a helper)
+	var exact map[string]bool
+	nExact := 0
+	F := getID
+	header, _, exits := descentLoop(p, F)
+	if header == nil {
+		if ps, why := flatten(p, getID, nil, trieScope); why == "" {
+			exact, nExact = sectionTests(ps)
+		}
+	} else {
+		exact = map[string]bool{}
+		for _, ex := range exits {
+			if ps, why := flattenFrom(p, F, ex, nil, trieScope); why == "" {
+				m, n := sectionTests(ps)
+				nExact += n
+				for k := range m {
+					exact[k] = true
+				}
+			}
+		}
+	}
+	// three-way side: loop-free helpers under the three-way descent that compare the tail
+	three := map[string]bool{}
+	nThree := 0
+	for f := range trieReach(search) {
+		if !trieScope(f) || hasLoop(f) || len(f.Blocks) == 0 || trieReach(getID)[f] {
+			continue
+		}
+		if ps, why := flatten(p, f, nil, trieScope); why == "" {
+			m, n := sectionTests(ps)
+			nThree += n
+			for k := range m {
+				three[k] = true
+			}
+		}
+	}
+	if nExact == 0 || nThree == 0 {
+		r.Unk("leaf tail tests", p.Pos(getID.Pos()), fmt.Sprintf("tail comparisons found: exact-match descent %d, three-way descent %d (anchor not found)", nExact, nThree))
+		return
+	}
+	a, b := strings.Join(sortedKeys(exact), " & "), strings.Join(sortedKeys(three), " & ")
+	r.Check(a == b, "leaf tail compared under the same section tests", p.Pos(getID.Pos()), "both under ["+a+"]",
+		"the exact-match descent compares the tail under ["+a+"], the three-way descent under ["+b+"]: in the modes where these differ Get and Search/RangeGet give different exact-match answers")
 }
